@@ -236,7 +236,7 @@ fn scenario(a: &Args, rep: &mut Report, rng: &mut Rng, si: usize) {
 pub fn run(a: &Args) {
 	let mut rep = Report::new("C18");
 	let mut rng = Rng::new(a.shard_seed() ^ 0xC18);
-	let n = a.get_u64("scenarios", if a.thorough() { 30 } else { 5 }) as usize;
+	let n = a.get_u64("scenarios", if a.thorough() { 30 } else { 10 }) as usize;
 	for si in 0..n {
 		scenario(a, &mut rep, &mut rng, si);
 	}
